@@ -129,6 +129,7 @@ type repo struct {
 	dir  string
 	seq  int
 	line int
+	tick int // commit timestamps strictly increase so that log order = history order
 }
 
 func (r *repo) git(env []string, args ...string) string {
@@ -190,8 +191,10 @@ func (r *repo) commit(c Commit) {
 		r.apply(op)
 	}
 	r.git(nil, "add", "-A")
+	r.tick++
+	ts := fmt.Sprintf("%sT%02d:%02d:00+0000", c.Date, 8+r.tick/60, r.tick%60)
 	env := []string{"GIT_AUTHOR_NAME=" + c.Author, "GIT_AUTHOR_EMAIL=a@example.org", "GIT_COMMITTER_NAME=" + c.Author,
-		"GIT_COMMITTER_EMAIL=a@example.org", "GIT_AUTHOR_DATE=" + c.Date + "T12:00:00+0000", "GIT_COMMITTER_DATE=" + c.Date + "T12:00:00+0000"}
+		"GIT_COMMITTER_EMAIL=a@example.org", "GIT_AUTHOR_DATE=" + ts, "GIT_COMMITTER_DATE=" + ts}
 	r.git(env, "commit", "-q", "--allow-empty", "-m", c.Subject)
 }
 
@@ -207,8 +210,10 @@ func buildReal(c Case, scratch string) (string, []CommitFact) {
 			r.git(nil, "checkout", "-q", "-b", fmt.Sprintf("side%d", i))
 			r.commit(h)
 			r.git(nil, "checkout", "-q", "main")
+			r.tick++
+			ts := fmt.Sprintf("%sT%02d:%02d:00+0000", h.Date, 8+r.tick/60, r.tick%60)
 			env := []string{"GIT_AUTHOR_NAME=" + h.Author, "GIT_AUTHOR_EMAIL=a@example.org", "GIT_COMMITTER_NAME=" + h.Author,
-				"GIT_COMMITTER_EMAIL=a@example.org", "GIT_AUTHOR_DATE=" + h.Date + "T13:00:00+0000", "GIT_COMMITTER_DATE=" + h.Date + "T13:00:00+0000"}
+				"GIT_COMMITTER_EMAIL=a@example.org", "GIT_AUTHOR_DATE=" + ts, "GIT_COMMITTER_DATE=" + ts}
 			r.git(env, "merge", "-q", "--no-ff", "-m", "Merge side branch", fmt.Sprintf("side%d", i))
 		} else {
 			r.commit(h)
@@ -263,24 +268,45 @@ func buildReal(c Case, scratch string) (string, []CommitFact) {
 
 // git's rename notation (diff.c pprint_rename): common leading directories and common trailing part.
 func renameNotation(a, b string) string {
+	lenA, lenB := len(a), len(b)
 	pfx := 0
-	for i := 0; i < len(a) && i < len(b) && a[i] == b[i]; i++ {
+	for i := 0; i < lenA && i < lenB && a[i] == b[i]; i++ {
 		if a[i] == '/' {
 			pfx = i + 1
 		}
 	}
-	sfx := 0
-	for i := 1; i <= len(a)-pfx+1 && i <= len(b)-pfx+1 && i <= len(a) && i <= len(b) && a[len(a)-i] == b[len(b)-i]; i++ {
-		if a[len(a)-i] == '/' {
-			sfx = i
-		}
+	adj := 0
+	if pfx > 0 {
+		adj = 1
 	}
-	if pfx == 0 && sfx == 0 {
+	sfx := 0
+	// indexes walk back from the terminating position (one past the end compares equal, like the NUL in C)
+	oi, ni := lenA, lenB
+	at := func(s string, i int) byte {
+		if i == len(s) {
+			return 0
+		}
+		return s[i]
+	}
+	for pfx-adj <= oi && pfx-adj <= ni && oi >= 0 && ni >= 0 && at(a, oi) == at(b, ni) {
+		if at(a, oi) == '/' {
+			sfx = lenA - oi
+		}
+		oi--
+		ni--
+	}
+	amid := lenA - pfx - sfx
+	bmid := lenB - pfx - sfx
+	if amid < 0 {
+		amid = 0
+	}
+	if bmid < 0 {
+		bmid = 0
+	}
+	if pfx+sfx == 0 {
 		return a + " => " + b
 	}
-	amid := a[pfx : len(a)-sfx]
-	bmid := b[pfx : len(b)-sfx]
-	return a[:pfx] + "{" + amid + " => " + bmid + "}" + a[len(a)-sfx:]
+	return a[:pfx] + "{" + a[pfx:pfx+amid] + " => " + b[pfx:pfx+bmid] + "}" + a[lenA-sfx:]
 }
 
 func buildSynth(c Case) ([]cocagit.CommitMessage, []CommitFact) {
